@@ -18,8 +18,8 @@ CM = C + 'CMAC'
 
 FID, KEY = 'self._ecb.g_fid', 'self._ecb.g_key'
 FED = 'self._cbc.g_fed'
-M = '(self._cbc.g_fed + bytes(self._cache)[:self._cache_n])'
-OM = '(old(self._cbc.g_fed) + old(bytes(self._cache)[:self._cache_n]))'
+M = '(self._cbc.g_fed + take(bytes(self._cache), self._cache_n))'
+OM = '(old(self._cbc.g_fed) + old(take(bytes(self._cache), self._cache_n)))'
 
 
 def CH(x):
@@ -96,6 +96,13 @@ def registry(bs=16, state=None, buf='bytes|memoryview'):
     nat.bytearray_fields_at_call_sites(reg, Contract(
         CM + '.update', params={'msg': buf}, raises={'TypeError': ('iff', refused)},
         ensures=ens({'message': '%s == %s + bytes(msg)' % (M, OM), 'self': 'result is self'}),
+        # stepping stones for the path "cache filled up, whole blocks chained, rest cached": the message splits at the fill
+        # point f = bs - old(_cache_n) and at the start of the new rest
+        lemmas={'exit': {
+            'split_fill': 'impl(old(self._cache_n > 0 and self._cache_n + len(msg) >= %s), '
+                          'bytes(msg) == bytes(msg)[:%s - old(self._cache_n)] + bytes(msg)[%s - old(self._cache_n):])' % (BS, BS, BS),
+            'split_rest': 'impl(old(self._cache_n > 0 and self._cache_n + len(msg) >= %s), bytes(msg)[%s - old(self._cache_n):] == '
+                          'bytes(msg)[%s - old(self._cache_n):len(msg) - self._cache_n] + bytes(msg)[len(msg) - self._cache_n:])' % (BS, BS, BS)}},
         modifies=['self._data_size', 'self._cache.*', 'self._cache_n', 'self._cbc.g_fed', 'self._last_ct', 'self._last_pt'],
         unchanged_on_raise=['TypeError'], opaque=OPQ), {'self._cache': 'bytearray[%d]' % bs})
     return reg
